@@ -1,5 +1,124 @@
-import Unsized.Codec
+import Unsized.CodecLemmasTop
+/-!
+# C05 — Serialize / initialize / deserialize round trip with exact size accounting
+
+All statements are about the definitions of `Unsized/Codec.lean` that the model driver
+`c05_model` executes; they hold for ALL shapes (arbitrary nesting), values and initializer
+arguments. `Shape.ok` = the shapes rustc accepts; `WF s v` = `valid s v ∧ fits s v` = what the
+Rust owned type can hold and `from_owned` can write (counts fit their prefix type).
+-/
 namespace Unsized.C05
-open Unsized
-theorem placeholder : True := trivial
+open Unsized Common
+
+/-- Announced size = bytes written: `|encode s v| = byte_size`. -/
+theorem encode_size (s : Shape) (v : Val) (hv : valid s v = true) :
+    (encode s v).length = size s v := encode_size_all s v hv
+
+example : ∃ s v, valid s v = true ∧ size s v = 25 :=
+  ⟨.ulist (.list (.pod 1) 1), .useq [.seq [[1], [2]], .seq [[3]]], by decide, by decide⟩
+
+/-- `from_owned` into any buffer of at least `byte_size` bytes writes exactly `encode s v` and
+returns exactly the announced `byte_size` (announced = returned = written, by `encode_size`). -/
+theorem from_owned_exact (s : Shape) (v : Val) (cap : Nat) (hwf : WF s v = true)
+    (hcap : size s v ≤ cap) : fromOwned s v cap = .ok (encode s v, size s v) := by
+  simp only [WF, Bool.and_eq_true] at hwf
+  simp [fromOwned, hwf.2, Nat.not_lt.2 hcap]
+
+/-- `get_ptr` on the serialized bytes (followed by anything) covers exactly the announced size. -/
+theorem extent_encode (s : Shape) (v : Val) (rest : List Nat) (hok : s.ok = true)
+    (hwf : WF s v = true) (htail : rest = [] ∨ s.zst = false) :
+    extent s (encode s v ++ rest) = .ok (size s v) := by
+  simp only [WF, Bool.and_eq_true] at hwf
+  exact (roundTrip_all s true false hok v rest hwf.1 hwf.2 htail).1
+
+/-- Deserializing the serialized bytes yields the value and consumes exactly the announced size,
+leaving `rest`. The tail caveat, exactly: if the shape ends in `RemainingBytes` (`s.zst`), the
+statement is for `rest = []` only, since trailing bytes ARE part of such a value. -/
+theorem decode_encode (s : Shape) (v : Val) (rest : List Nat) (hok : s.ok = true)
+    (hwf : WF s v = true) (htail : rest = [] ∨ s.zst = false) :
+    decode s (encode s v ++ rest) = .ok (v, size s v) := by
+  simp only [WF, Bool.and_eq_true] at hwf
+  have := roundTrip_all s true false hok v rest hwf.1 hwf.2 htail
+  exact (decode_ok_iff s _ v _).2 this
+
+example : ∃ s v, s.ok = true ∧ WF s v = true ∧ s.zst = false :=
+  ⟨.struct [.bool] [.map 1 (.pod 1) 1, .enum [0, 7] [.unit, .ulist (.str 1)]],
+   .record [1] [.seq [[1, 9], [2, 8]], .variant 1 (.useq [.bytes [104, 105]])],
+   by decide, by decide, by decide⟩
+
+/-- `INIT_BYTES` = bytes written by `init`. -/
+theorem init_size (s : Shape) (a : Init) (hok : s.ok = true) (ha : initOk s a = true) :
+    (initBytes s a).length = initSize s a := by
+  obtain ⟨h1, h2, h3⟩ := initP_all s a ha
+  rw [h1, h2]
+  exact encode_size_all s _ (h3 true false hok)
+
+/-- The initialized bytes are the serialization of the value the initializer denotes … -/
+theorem init_encodes (s : Shape) (a : Init) (ha : initOk s a = true) :
+    initBytes s a = encode s (denote s a) := (initP_all s a ha).1
+
+/-- … and parse back to it, consuming exactly `INIT_BYTES`. (`hf`: the array lengths fit the
+length prefix — otherwise the real `init` returns `ToPrimitiveError` instead of writing.) -/
+theorem init_denotes (s : Shape) (a : Init) (hok : s.ok = true) (ha : initOk s a = true)
+    (hf : fits s (denote s a) = true) :
+    decode s (initBytes s a) = .ok (denote s a, initSize s a) := by
+  obtain ⟨h1, h2, h3⟩ := initP_all s a ha
+  have hv := h3 true false hok
+  have := decode_encode s (denote s a) [] hok (by simp [WF, hv, hf]) (Or.inl rfl)
+  rw [List.append_nil] at this
+  rw [h1, h2]; exact this
+
+example : ∃ s a, s.ok = true ∧ initOk s a = true ∧ fits s (denote s a) = true ∧ initSize s a = 26 :=
+  ⟨.ulist (.list (.pod 1) 1), .uarray [.array [[1], [2]], .array [[3], [4]]],
+   by decide, by decide, by decide, by decide⟩
+
+/-- Client helpers: `serialize_account` writes the discriminant then the value into exactly
+`byte_size` bytes, and `deserialize_account` of those bytes returns the value. -/
+theorem account_roundtrip (d : List Nat) (inner : Shape) (v : Val)
+    (hok : (Shape.disc d inner).ok = true) (hwf : WF inner v = true) :
+    serializeAccount d inner v = .ok (d ++ encode inner v)
+      ∧ (d ++ encode inner v).length = size inner v + d.length
+      ∧ deserializeAccount d inner (d ++ encode inner v) = .ok (v, size inner v + d.length) := by
+  have hwf' : WF (.disc d inner) v = true := by
+    simp only [WF, Bool.and_eq_true] at hwf ⊢
+    constructor
+    · cases v <;> simpa [valid] using hwf.1
+    · cases v <;> simpa [fits] using hwf.2
+  have e1 : encode (.disc d inner) v = d ++ encode inner v := by cases v <;> rfl
+  have e2 : size (.disc d inner) v = size inner v + d.length := by cases v <;> rfl
+  have hdec := decode_encode (.disc d inner) v [] hok hwf' (Or.inl rfl)
+  rw [List.append_nil, e1, e2] at hdec
+  have hlen := encode_size (.disc d inner) v (by simp only [WF, Bool.and_eq_true] at hwf'; exact hwf'.1)
+  rw [e1, e2] at hlen
+  refine ⟨?_, hlen, ?_⟩
+  · have := from_owned_exact (.disc d inner) v (size (.disc d inner) v) hwf' (Nat.le_refl _)
+    simp only [serializeAccount, this, e1]
+  · have h1 : d.length ≤ (d ++ encode inner v).length := by simp
+    have h2 : (d ++ encode inner v).take d.length = d := List.take_left' rfl
+    simp only [deserializeAccount, checkDiscriminant, if_pos h1, h2, if_true]
+    exact hdec
+
+/-- Data whose discriminant differs (or is cut short) is rejected with `DiscriminantMismatch`,
+whatever follows. -/
+theorem account_rejects (d : List Nat) (inner : Shape) (bs : List Nat) (h : bs.take d.length ≠ d) :
+    deserializeAccount d inner bs = .error .discMismatch := by
+  by_cases h1 : d.length ≤ bs.length
+  · simp [deserializeAccount, checkDiscriminant, h1, h]
+  · simp [deserializeAccount, checkDiscriminant, h1]
+
+example : ∃ (d bs : List Nat), bs.take d.length ≠ d := ⟨[1, 2], [1, 3, 0], by decide⟩
+
+/-- `TestByteSet::new(v).owned() = v` — the helper reads `[..len]`, not the whole backing buffer
+with its 10 240 bytes of slack (this is what failed before the D5 fix for `RemainingBytes` tails). -/
+theorem test_buffer_owned (s : Shape) (v : Val) (hok : s.ok = true) (hwf : WF s v = true) :
+    ∃ buf, testBufferNew s v = .ok buf ∧ buf.2 = size s v ∧ testBufferOwned s buf = .ok v := by
+  have hfo := from_owned_exact s v (size s v) hwf (Nat.le_refl _)
+  have hlen : (encode s v).length = size s v := by
+    simp only [WF, Bool.and_eq_true] at hwf; exact encode_size s v hwf.1
+  refine ⟨(encode s v ++ List.replicate testSlack 0, size s v), by simp [testBufferNew, hfo], rfl, ?_⟩
+  have hdec := decode_encode s v [] hok hwf (Or.inl rfl)
+  rw [List.append_nil] at hdec
+  simp only [testBufferOwned]
+  rw [List.take_left' hlen, hdec]
+
 end Unsized.C05
